@@ -691,20 +691,19 @@ func (c *FnCtx) execRange(x *ssa.Range, st *State) {
 // seenKey names the ghost seen-set of a map range instruction (by its ordinal among the function's
 // Range instructions over maps, so that specs can refer to it as seen(n, key)).
 func seenKey(x *ssa.Range) string {
-	n := 0
+	// ordinal in *source* order (block order differs: the range of a loop that follows a loop sits in that
+	// loop's exit block, before the blocks of a loop nested in it)
+	n := 1
 	for _, b := range x.Parent().Blocks {
 		for _, in := range b.Instrs {
-			if r, ok := in.(*ssa.Range); ok {
-				if _, isMap := r.X.Type().Underlying().(*types.Map); isMap {
+			if r, ok := in.(*ssa.Range); ok && r != x {
+				if _, isMap := r.X.Type().Underlying().(*types.Map); isMap && r.Pos() < x.Pos() {
 					n++
-					if r == x {
-						return fmt.Sprintf("SEEN_%d", n)
-					}
 				}
 			}
 		}
 	}
-	return "SEEN_0"
+	return fmt.Sprintf("SEEN_%d", n)
 }
 
 func (c *FnCtx) execNext(x *ssa.Next, st *State, reach *Term) {
